@@ -10,10 +10,10 @@
 /* physical layout of the model entries + the separator keys, recovered with the independent decoder */
 static epos_t *layout_of(const char *path, const wcfg_t *cfg, const model_t *m, qset_t *seps, size_t *nblocks)
 {
-	size_t len; uint8_t *data = read_file(path, &len);
+	size_t len; uint8_t *data = map_file(path, &len);
 	rd_file_t f;
 	if (!data) return NULL;
-	if (rd_parse(data, len, (int64_t)cfg->prefix_len, &f) != 0) { inconclusive("layout: decoder rejects file: %s", f.err); free(data); rd_free(&f); return NULL; }
+	if (rd_parse(data, len, (int64_t)cfg->prefix_len, &f) != 0) { inconclusive("layout: decoder rejects file: %s", f.err); unmap_file(data, len); rd_free(&f); return NULL; }
 	epos_t *ep = xcalloc(m->n + 1, sizeof(epos_t));
 	size_t gi = 0;
 	for (size_t b = 0; b < f.n_blocks; b++) {
@@ -26,7 +26,7 @@ static epos_t *layout_of(const char *path, const wcfg_t *cfg, const model_t *m, 
 	if (gi != m->n) { inconclusive("layout: decoder finds %zu entries, model has %zu", gi, m->n); free(ep); ep = NULL; }
 	if (seps) for (size_t i = 0; i < f.index.n_ents; i++) qset_add(seps, f.index.ents[i].k.p, f.index.ents[i].k.n);
 	if (nblocks) *nblocks = f.n_blocks;
-	rd_free(&f); free(data);
+	rd_free(&f); unmap_file(data, len);
 	return ep;
 }
 
@@ -183,6 +183,7 @@ int main(int argc, char **argv)
 {
 	args_t a;
 	parse_args(argc, argv, &a);
+	g_allow_huge_prefix = 1;
 	case_fn f = NULL;
 	if (!strcmp(a.sub, "c02")) f = case_c02;
 	else if (!strcmp(a.sub, "c03x")) f = case_c03x;
